@@ -9,6 +9,7 @@ out of the corners the standard leaves unspecified.  The reference model also pr
 quirk models of the known findings.
 """
 
+import gc
 import io
 import itertools
 import os
@@ -41,7 +42,7 @@ ASSUMPTIONS = [
     "the token sequence of ppci is the token stream of CPreProcessor.process_file (what the C parser consumes), "
     "not a re-lexing of the text written by CTokenPrinter",
     "intmax_t/uintmax_t are 64 bit; >> of negative values and shifts by >= 64 are not generated",
-    "a unit on which ppci produces nothing within 20 s (normal: milliseconds) counts as non-termination, i.e. a failure",
+    "a unit on which ppci produces nothing within 10 s (normal: milliseconds) counts as non-termination, i.e. a failure",
 ]
 TRUSTED = ["CPython", "Hypothesis", "gcc 12 (cpp)", "tokenizer and reference preprocessor in vf/cppref.py (must agree with gcc on every judged case)"]
 TECHNIQUE = "differential testing against gcc -E on generated macro/conditional translation units, token-level comparison"
@@ -51,7 +52,7 @@ LEVEL_TEXT = (
     "stream must equal gcc's.  The input space (programs) is unbounded, so sampling with a structured generator plus "
     "a second model as guard is the appropriate level."
 )
-REGISTER = False
+REGISTER = True
 
 GCC = ["gcc", "-E", "-P", "-std=c99", "-x", "c", "-"]
 
@@ -90,7 +91,7 @@ def _alarm(signum, frame):
     raise _Timeout()
 
 
-PPCI_LIMIT = [20]  # seconds; a unit takes milliseconds
+PPCI_LIMIT = [10]  # seconds; a unit takes milliseconds
 
 
 def run_ppci(src, limit=None):
@@ -100,6 +101,8 @@ def run_ppci(src, limit=None):
 
     pp = CPreProcessor(COptions())
     limit = limit or PPCI_LIMIT[0]
+    gc_was = gc.isenabled()
+    gc.disable()  # gc callbacks (Hypothesis installs one) would swallow the timeout exception
     old = signal.signal(signal.SIGALRM, _alarm)
     signal.setitimer(signal.ITIMER_REAL, limit, 1.0)  # repeats, in case one exception is swallowed
     try:
@@ -121,16 +124,54 @@ def run_ppci(src, limit=None):
     finally:
         signal.setitimer(signal.ITIMER_REAL, 0)
         signal.signal(signal.SIGALRM, old)
+        if gc_was:
+            gc.enable()
 
 
 _GCC_CACHE = {}
 
 
+def _prefill():
+    """One gcc run for all known-finding witnesses and regression replays (process start is the expensive part)."""
+    _GCC_CACHE[None] = None
+    try:
+        import glob
+        import json
+
+        from ..core import VERIF, load_findings
+
+        srcs = [e["witness"]["src"] for e in load_findings(PID) if isinstance(e.get("witness"), dict) and "src" in e["witness"]]
+        for path in sorted(glob.glob(os.path.join(VERIF, "replays", PID, "*.json"))):
+            d = json.load(open(path))
+            d = d.get("case", d)
+            if isinstance(d, dict) and isinstance(d.get("src"), str):
+                srcs.append(d["src"])
+        names = set()
+        ok = []
+        for src in srcs:
+            try:
+                pp = cppref.RefPP()
+                pp.process(src)
+            except Exception:
+                continue
+            names |= pp.ever_defined
+            ok.append(src)
+        if len(ok) > 1:
+            for src, toks in zip(ok, gcc_batch(ok, names)):
+                if toks is not None:
+                    _GCC_CACHE[src] = (toks, "")
+    except Exception:
+        pass
+
+
 def run_gcc(src):
     """-> (tokens | None, diagnostics)"""
+    if None not in _GCC_CACHE:
+        _prefill()
     if src not in _GCC_CACHE:
         if len(_GCC_CACHE) > 2000:
             _GCC_CACHE.clear()
+            _GCC_CACHE[None] = None
         _GCC_CACHE[src] = _run_gcc(src)
     return _GCC_CACHE[src]
 
@@ -190,6 +231,8 @@ def replay(case):
 
 
 def classify(case, msg):
+    if str(msg).startswith("ppci did not finish"):
+        return None  # no known finding is a non-termination
     try:
         m, info = evaluate(case)
     except Exception:
@@ -672,7 +715,7 @@ def shrink(case, msg, budget=60):
     best = case["src"]
     bestmsg = msg
     spent = [0]
-    t_end = time.time() + 45
+    t_end = time.time() + 30
 
     def fails(src):
         if spent[0] >= budget or time.time() > t_end:
@@ -812,10 +855,11 @@ def _worker(arg):
             if kid and kid in open_ids:
                 stats.known[kid] += 1
                 continue
-            fails.append(shrink(case, msg))
+            fails.append(shrink(case, msg) if not fails else (case, msg))
     return stats, fails
 
 
 def run(ctx):
-    n = ctx.scale(6000, 400000)
-    ctx.pmap(_worker, [(subseed(ctx.seed, PID, w), n // 16, not ctx.quick) for w in range(16)])
+    n = ctx.scale(4000, 400000)
+    # 16 shards on 8 processes: on a loaded machine 16 processes plus their gcc children only add contention
+    ctx.pmap(_worker, [(subseed(ctx.seed, PID, w), n // 16, not ctx.quick) for w in range(16)], workers=ctx.scale(8, 16))
